@@ -5,7 +5,7 @@ CONSTANTS
  VerTable <- MCVerTable
  InitCfgs <- MCInitCfgs
  Reloads <- MCReloads
- MaxReloads = 0
+ MaxReloads = 1
  MaxTicks = 0
  BadKinds <- MCBad
  MaxOps = 4
